@@ -67,16 +67,25 @@ def check(case, mode):
     # must agree with it; where it does not (the builder fixes a defaulted slice stop of an
     # alias of an alias at parse time, with the declared let values) the case is outside what
     # this property states and is counted, not judged.
+    frozen = gen.frozen_default_risk(prog, env)
     try:
         exc = extract.Extractor(c, env)
-        if not same_meaning(exc.meaning(), m_ref):
-            raise Skip()
+        m_c = exc.meaning()
         d_c = exc.declarations()
-    except extract.ExtractError:
-        raise Skip()
+    except extract.ExtractError as e:
+        if frozen:
+            raise Skip()
+        raise Violation("parsed-circuit-unresolvable-under-override", f"{e}\n--- overrides {env}\n--- program:\n{text}")
     d_ref = ref.declarations()
-    if d_c["reg"] != d_ref["reg"] or [tuple(x) for x in d_c["maps"]] != [tuple(x) for x in d_ref["maps"]]:
-        raise Skip()
+    if not same_meaning(m_c, m_ref) or d_c["reg"] != d_ref["reg"] or [tuple(x) for x in d_c["maps"]] != [tuple(x) for x in d_ref["maps"]]:
+        if frozen:
+            raise Skip()
+        # only the frozen-default situation is a known, out-of-scope disagreement between the
+        # parsed circuit and its text; anything else is the builder's doing
+        raise Violation(
+            "parsed-circuit-disagrees-with-text-under-override",
+            f"circuit (evaluated under the overrides): {show(m_c)}\n{d_c}\nreference: {show(m_ref)}\n{d_ref}\n--- overrides {env}\n--- program:\n{text}",
+        )
     st_, f = guard(fill_in_let, c, dict(env) if env else None, what="fill_in_let")
     if st_ == "err":
         raise Violation("rejected-valid-program", f"{f}\n--- overrides {env}\n--- program:\n{text}")
